@@ -7,7 +7,10 @@ import (
 	"context"
 	"flag"
 	"fmt"
+	"net/http"
+	"net/http/httptest"
 	"os"
+	"strings"
 	"sync"
 	"sync/atomic"
 	"time"
@@ -16,6 +19,7 @@ import (
 	"github.com/superfly/macaroon/bundle"
 	"github.com/superfly/macaroon/flyio"
 	"github.com/superfly/macaroon/resset"
+	"github.com/superfly/macaroon/tp"
 )
 
 type opfn struct {
@@ -117,10 +121,66 @@ func main() {
 			}
 		}
 	}
+	bad += clientFanOut(key)
 	if bad > 0 {
 		os.Exit(1)
 	}
 	fmt.Println("no deadlock observed")
+}
+
+// clientFanOut: the library's own concurrent user of a bundle: the discharge client fetches the discharges of N tickets in
+// parallel and adds each to the bundle as it arrives. For every N the call returns and all N discharges are present.
+func clientFanOut(key macaroon.SigningKey) int {
+	ka := macaroon.NewEncryptionKey()
+	mux := http.NewServeMux()
+	srv := httptest.NewServer(mux)
+	defer srv.Close()
+	svc := &tp.TP{Location: srv.URL, Key: ka}
+	mux.Handle(tp.InitPath, svc.InitRequestMiddleware(http.HandlerFunc(func(w http.ResponseWriter, r *http.Request) {
+		svc.RespondDischarge(w, r)
+	})))
+	bad := 0
+	for _, n := range []int{1, 2, 8, 9, 16, 17, 40, 100} {
+		var hdrs []string
+		for i := 0; i < n; i++ {
+			m, _ := macaroon.New([]byte{byte(i), byte(i >> 8)}, "loc", key)
+			m.Add(&flyio.Organization{ID: uint64(i + 1), Mask: resset.ActionAll})
+			m.Add3P(ka, srv.URL)
+			s, _ := m.String()
+			hdrs = append(hdrs, s)
+		}
+		hdr := "FlyV1 " + strings.Join(hdrs, ",")
+		client := tp.NewClient("loc")
+		type res struct {
+			out string
+			err error
+		}
+		ch := make(chan res, 1)
+		go func() {
+			ctx, cancel := context.WithTimeout(context.Background(), 4*time.Second)
+			defer cancel()
+			out, err := client.FetchDischargeTokens(ctx, hdr)
+			ch <- res{out, err}
+		}()
+		select {
+		case r := <-ch:
+			b, perr := bundle.ParseBundle("loc", r.out)
+			if r.err != nil || perr != nil {
+				fmt.Printf("DEADLOCK-OR-LOSS client FetchDischargeTokens with %d tickets fails: %v %v\n", n, r.err, perr)
+				bad++
+			} else if got := b.Len(); got != 2*n {
+				fmt.Printf("DEADLOCK-OR-LOSS client FetchDischargeTokens with %d tickets returns %d tokens, not %d (discharges added concurrently are not all present)\n", n, got, 2*n)
+				bad++
+			} else if left := len(b.UndischargedThirdPartyTickets()); left != 0 {
+				fmt.Printf("DEADLOCK-OR-LOSS client FetchDischargeTokens with %d tickets leaves %d locations undischarged\n", n, left)
+				bad++
+			}
+		case <-time.After(6 * time.Second):
+			fmt.Printf("DEADLOCK client FetchDischargeTokens with %d tickets never returned\n", n)
+			bad++
+		}
+	}
+	return bad
 }
 
 func ptr[T any](v T) *T { return &v }
